@@ -178,3 +178,18 @@ MUTANTS += [
     ('C09-mate-without-modulus-tolerated', ['C09'], SG, "            if self.driven_by.elastic_modulus is not None:\n                mate_elastic_modulus = self.driven_by.elastic_modulus\n            else:", "            mate_elastic_modulus = self.driven_by.elastic_modulus or self.elastic_modulus\n            if False:\n                pass\n            else:"),
     ('C09-worm-effective-width-factor', ['C09'], WW, "                self.face_width, 0.67*self.driven_by.reference_diameter", "                self.face_width, 0.76*self.driven_by.reference_diameter"),
 ]
+MUTANTS += [
+    ('C07-no-load-speed-raw-value', ['C07'], M, "            value=(1 - self.angular_speed/no_load_speed)*maximum_torque.value,", "            value=(1 - self.angular_speed.value/no_load_speed.value)*maximum_torque.value,"),
+    ('C07-timer-compares-raw-values', ['C07'], 'gearpy/sensors/timer.py', "        return (current_time >= self.start_time) and \\", "        return (current_time.value >= self.start_time.value) and \\"),
+    ('C07-helical-cos-of-raw-value', ['C07', 'C09'], HG, "                    value=atan(PRESSURE_ANGLE.tan()/helix_angle.cos()),", "                    value=atan(PRESSURE_ANGLE.tan()/__import__('math').cos(helix_angle.value*0.017453292519943295)),"),
+    ('C07-revert-D4-pandas-key', ['C07'], MOB, "        if available_pressure_angle == pressure_angle:", "        if available_pressure_angle.value == pressure_angle.to('deg').value:"),
+    ('C07-inertia-unit-assumed', ['C07', 'C03'], S, "            self.__powertrain_inertia_moment += element.inertia_moment", "            self.__powertrain_inertia_moment += type(element.inertia_moment)(element.inertia_moment.value, self.__powertrain_inertia_moment.unit)"),
+]
+MUTANTS += [
+    ('C04-stale-torque-acceleration', ['C04', 'C03'], S, "        self.__powertrain.elements[-1].angular_acceleration = \\\n            self.__powertrain.elements[-1].torque / \\\n            self.__powertrain_inertia_moment",
+     "        previous = self.__powertrain.elements[-1].time_variables['torque']\n        self.__powertrain.elements[-1].angular_acceleration = \\\n            (previous[-1] if previous else self.__powertrain.elements[-1].torque) / \\\n            self.__powertrain_inertia_moment"),
+    ('C04-dt-doubled', ['C04', 'C03'], S, "            self.__powertrain.elements[-1].angular_acceleration * \\\n            time_discretization", "            self.__powertrain.elements[-1].angular_acceleration * \\\n            time_discretization*2"),
+    ('C04-position-uses-old-speed', ['C04', 'C03'], S,
+     "        self.__powertrain.elements[-1].angular_speed += \\\n            self.__powertrain.elements[-1].angular_acceleration * \\\n            time_discretization\n        self.__powertrain.elements[-1].angular_position += \\\n            self.__powertrain.elements[-1].angular_speed*time_discretization",
+     "        old_speed = self.__powertrain.elements[-1].angular_speed\n        self.__powertrain.elements[-1].angular_speed += \\\n            self.__powertrain.elements[-1].angular_acceleration * \\\n            time_discretization\n        self.__powertrain.elements[-1].angular_position += \\\n            old_speed*time_discretization*1.5"),
+]
